@@ -69,6 +69,10 @@ func twinOp(r *core.Rand, a *msggen.Abs, mode string) string {
 	skip := "0"
 	if logger != "snapshot" && r.Chance(1, 4) {
 		skip = "1"
+		if r.Chance(3, 4) {
+			// the marking spelled out: any number of marks, from either side of the exchange
+			return strings.Join(append([]string{"twinm", logger, o1, o2, DrawMarks(r, a.Req), mode, TrustedTok(a)}, a.Tokens()...), " ")
+		}
 	}
 	return strings.Join(append([]string{"twinx", logger, o1, o2, skip, mode, TrustedTok(a)}, a.Tokens()...), " ")
 }
@@ -174,6 +178,7 @@ func itoa(n int) string { return strconv.Itoa(n) }
 func (P) Gen(r *core.Rand, tier string, emit func([]string)) {
 	bigCases(r.Fork(), tier, emit)
 	badCases(r.Fork(), emit)
+	multiCases(r.Fork(), tier, emit)
 	n := 350
 	if tier == "thorough" {
 		n = 4000
